@@ -34,7 +34,16 @@ PAYLOADS = [
 ]
 
 
-def sentinel():
+# break-outs that end with a comment, so that whatever follows the injected text cannot make the candidate a syntax error
+for _q in ('"', "'", '"""', "'''"):
+    for _pre in ('', '\\', '\\\\', 'x\\\\\\', '\n', '{', '}'):
+        PAYLOADS.append(_pre + _q + '+sentinel()#')
+        PAYLOADS.append(_pre + _q + '+sentinel(1)+b' + _q)
+        PAYLOADS.append(_pre + _q + ';sentinel()#')
+        PAYLOADS.append('\udc80' + _pre + _q + '+sentinel()+' + _q + '{y}')
+
+
+def sentinel(*args):
     SENTINEL.append(1)
     return ''
 
